@@ -1,4 +1,5 @@
 import Tpp.Lemmas.Modes
+import Tpp.Lemmas.RendOnly
 /-!
 C11 – mode switches leave the last requested mode in effect and respect capabilities.
 
@@ -138,6 +139,30 @@ theorem C11_modes_from_start (beh : Behaviour) (st : TermState × VT) (hA : Agre
     (hwf : RunWF beh st evs) :
     Consistent beh st.2.modes (requested evs) (Sys.run beh st evs).2.modes :=
   C11_modes beh evs st {} st.2.modes hA hwf (consistent_init beh st.2.modes)
+
+/-- **no size needed**: the same statement for histories in which the library's idea of sizes and positions
+    is arbitrary – no `set_size` at all, a `set_size` that does not match the terminal, the terminal resized
+    without the library being told, cursor moves to any non-negative position.  Mode switches never depend on
+    where the library believes the cursor is. -/
+theorem C11_modes_any_size (beh : Behaviour) (evs : List REv) :
+    ∀ (st : TermState × VT) (r : Requested) (m0 : VT.Modes), AgreeRend st.1 st.2 → RRunWF beh st evs →
+      Consistent beh m0 r st.2.modes →
+      Consistent beh m0 ((evs.map REv.toEv).foldl Requested.after r) (RSys.run beh st evs).2.modes := by
+  induction evs with
+  | nil => intro st r m0 _ _ h; exact h
+  | cons ev evs ih =>
+    intro st r m0 hA hw h
+    obtain ⟨hw1, hw2⟩ := hw
+    have hm := rstep_modes beh st.1 st.2 hA ev hw1
+    have hc := consistent_step beh m0 r st.2.modes ev.toEv h
+    rw [← hm] at hc
+    exact ih (RSys.step beh st ev) (r.after ev.toEv) m0 (agreeRend_step beh st.1 st.2 hA ev hw1).1 hw2 hc
+
+/-- a fresh `terminal` that never declares a size, on a terminal in any unknown state -/
+theorem C11_modes_readme (beh : Behaviour) (vt0 : VT) (hu : vt0.Unknown) (evs : List REv)
+    (hwf : RRunWF beh ({}, vt0) evs) :
+    Consistent beh vt0.modes (requested (evs.map REv.toEv)) (RSys.run beh ({}, vt0) evs).2.modes :=
+  C11_modes_any_size beh evs ({}, vt0) {} vt0.modes (agreeRend_init vt0 hu) hwf (consistent_init beh vt0.modes)
 
 /-- nothing is sent for a capability the behaviour does not declare -/
 theorem C11_no_bytes_without_capability (beh : Behaviour) (s : TermState) (t : List Byte) :
